@@ -157,6 +157,18 @@ def _converter_info(ctx, fname, getter, to_unit):
             cn = call_name(st.value) or ''
             if cn.startswith('utils.get_') and cn.endswith('_conversion'):
                 convs[st.targets[0].id] = st.value
+        elif isinstance(st, ast.Assign) and isinstance(st.value, ast.IfExp) \
+                and len(st.targets) == 1 and isinstance(st.targets[0],
+                                                        ast.Name):
+            # conv = <default callable> if <unit is default> else getter(..):
+            # the name is bound to a converter on one arm (the kind /
+            # direction checks of R1 and the guard check of R8 look at the
+            # getter call itself)
+            for arm in (st.value.body, st.value.orelse):
+                cn = call_name(arm) if isinstance(arm, ast.Call) else ''
+                if cn and cn.startswith('utils.get_') and \
+                        cn.endswith('_conversion'):
+                    convs.setdefault(st.targets[0].id, arm)
     return fi, convs
 
 
@@ -259,6 +271,20 @@ def r1_r2(ctx, keys, sections):
                 if isinstance(st, ast.Assign) else None
             srcpaths = IP.resolve(fi.node, app[0], roots, aliases,
                                   line=st.lineno) if app else None
+            if app is not None:
+                # a conversion store behind an unconditional jump converts
+                # nothing: it must not count towards coverage
+                g_ = cfg_of(fi)
+                nd_ = g_.node_of(st)
+                if nd_ is None or not g_.is_reachable(nd_):
+                    ctx.violation(
+                        'C17.R1', fi, st, 'the conversion store into %s is '
+                        'unreachable (dead code behind an unconditional '
+                        'jump): the value is never converted'
+                        % ', '.join(sorted({IP.fmt(p) for p in paths})),
+                        key='%s | dead conversion store %s'
+                        % (fi.full, ' '.join(src(t).split())))
+                    continue
             for p in paths:
                 canon = _canon(p, keys, sections)
                 if p[0] == 'Assignment':
